@@ -302,7 +302,11 @@ func runC20(replay string) int {
 	if _, ok := run.Coverage["exhaustive"]; !ok {
 		run.Coverage["exhaustive"] = true
 	}
-	run.Coverage["rule"] = "(e) schedules: for each closed scenario of the real EventSystem + event bus (drivers: subscribers, deliverer; code threads: eventLoop, consumeEvents, publishTopic, Unsubscribe goroutines) every schedule with at most B deviations " +
+	abciRule := ""
+	if c20ABCIHook != nil {
+		abciRule = c20ABCIRule(run.Thorough()) + " || "
+	}
+	run.Coverage["rule"] = abciRule + "(e) schedules: for each closed scenario of the real EventSystem + event bus (drivers: subscribers, deliverer; code threads: eventLoop, consumeEvents, publishTopic, Unsubscribe goroutines) every schedule with at most B deviations " +
 		"from the default schedule (default: keep running the current thread, lowest id when it blocks; a deviation is any other pick, a non-first ready select case / rendezvous partner, or a timer firing before quiescence) is executed to quiescence on the code compiled from the current sources; " +
 		"states = distinct terminal outcome classes (+ distinct input/outcome classes of parts a-d), transitions = scheduled steps (+ ABCI calls); (a)-(d): see counters"
 	run.Assumptions = []string{"map accesses of the instrumented packages are checked for happens-before ordering with vector clocks (locks, channel operations, spawn, WaitGroup); other unsynchronised memory accesses are invisible to a cooperative scheduler",
